@@ -3,6 +3,7 @@
 Model-based, operation sequences as data: build operations (single / bulk inserts, deferred commit / index,
 re-indexing, commit) interleaved with reopen cycles are applied to the real map and to an in-memory model;
 at every reopen the answers before closing, after reopening and of the model must coincide."""
+import json
 import os
 import shutil
 import tempfile
@@ -18,7 +19,8 @@ RULE = ("cases: (backend sqlite/pickle, metric flag, crs strings, operation list
         "rebuilt); non-trivial = at least one reopen of a map with >=2 nodes and >=1 edge; distinct = case JSON")
 ASSUMPTIONS = ["labels: non-negative ints for SQLite, ints or strings for the pickle", "every edge joins existing nodes; no node is added twice; "
                "bulk add_edges never repeats an edge (plain INSERT)", "a user who never commits a no_commit insert is outside the property",
-               "spatial queries compared on 3 drawn (location, radius) pairs per case"]
+               "spatial queries compared on 3 drawn (location, radius) pairs per case",
+               "a third of the SQLite histories are additionally reopened by a second interpreter started with another PYTHONHASHSEED"]
 TOLERANCES = {"answers": "exact equality"}
 BUDGET = {"quick": {"shards": 8, "examples": 600}, "thorough": {"shards": 16, "examples": 4000}}
 
@@ -29,6 +31,45 @@ def _tmp():
 
 def t2(p):
     return (float(p[0]), float(p[1]))
+
+
+_worker = []
+
+
+def other_process():
+    """A persistent second interpreter with another PYTHONHASHSEED: a stored map must not depend on the process that wrote it."""
+    import atexit
+    import subprocess
+    import sys
+    if _worker:
+        return _worker[0]
+    env = dict(os.environ, PYTHONHASHSEED="4242", PYTHONWARNINGS="ignore")
+    env["PYTHONPATH"] = base.VERIF + os.pathsep + env.get("PYTHONPATH", "")
+    p = subprocess.Popen([sys.executable, "-m", "lmmverif.reopen_worker"], cwd=base.VERIF, env=env, stdin=subprocess.PIPE,
+                         stdout=subprocess.PIPE, text=True, bufsize=1)
+    line = p.stdout.readline()
+    if not line or not json.loads(line).get("ready"):
+        raise base.HarnessError("reopen worker did not start")
+    _worker.append(p)
+
+    def stop():
+        try:
+            p.stdin.close()
+            p.wait(timeout=5)
+        except Exception:  # noqa
+            p.kill()
+    atexit.register(stop)
+    return p
+
+
+def answers_in_other_process(fn, queries):
+    p = other_process()
+    p.stdin.write(base.canon_json({"file": fn, "queries": queries}) + "\n")
+    p.stdin.flush()
+    line = p.stdout.readline()
+    if not line:
+        raise base.HarnessError("reopen worker died")
+    return json.loads(line)
 
 
 def answers(m, queries, with_flags=True):
@@ -81,7 +122,7 @@ def run_sqlite(case, ctx, d):
     nodes, edges = {}, []
     un_nodes, un_edges, uncommitted = False, False, False
     reopens = 0
-    stats = {"deferred": False}
+    stats = {"deferred": False, "linked": False, "other_process": False}
     for op in case["ops"]:
         k = op[0]
         if k == "add_node":
@@ -124,6 +165,15 @@ def run_sqlite(case, ctx, d):
         elif k == "commit":
             pk(m.db.commit)
             uncommitted = False
+        elif k == "connect_parallelroads":
+            if un_nodes or un_edges:
+                continue  # needs the indexes (documented obligation of the deferred modes)
+            pk(m.connect_parallelroads, dist=op[1])
+            uncommitted = False
+            # (fetchall, and no cursor kept in this frame: an unfinished SELECT on a live cursor keeps the connection - and its
+            # read lock - alive after close())
+            n_links = m.db.execute("SELECT count(*) FROM close_edges").fetchall()[0][0]
+            stats["linked"] = stats["linked"] or n_links > 0
         elif k == "reopen":
             stats["deferred"] |= un_nodes or un_edges or uncommitted
             # documented obligations of the deferred modes
@@ -147,6 +197,16 @@ def run_sqlite(case, ctx, d):
             if before["use_latlon"] != latlon or before["metric_module"] != ("dist_latlon" if latlon else "dist_euclidean"):
                 raise Violation("model.flag", f"metric flag before closing: {before['use_latlon']}/{before['metric_module']}, created with {latlon}")
             m.db.close()
+            if case.get("other_process"):
+                res = answers_in_other_process(os.path.join(d, "stored.sqlite"), case["queries"])
+                if "raised" in res:
+                    raise Violation("reopen.other-process.raised", f"opening the stored map in another process raised {res['raised']}: {res.get('msg')}")
+                b, o = base.jsonable(before), res["answers"]
+                for key in b:
+                    if b[key] != o.get(key):
+                        raise Violation(f"reopen.other-process.{key}", f"cycle {reopens + 1}: {key} before closing {b[key]!r}, opened in another "
+                                                                       f"process (other hash seed) {o.get(key)!r}")
+                stats["other_process"] = True
             m = pk(SqliteMap.from_file, os.path.join(d, "stored.sqlite"))
             reopens += 1
             after = answers(m, case["queries"])
@@ -217,7 +277,7 @@ def run_pickle(case, ctx, d):
                 if df:
                     raise Violation(f"reopen.{df[0]}", f"cycle {reopens}: {df[0]} before dump {df[1]!r}, after load {df[2]!r}")
             m = m2
-    return len(nodes), len(edges), reopens, {"deferred": False}
+    return len(nodes), len(edges), reopens, {"deferred": False, "linked": False, "other_process": False}
 
 
 def check_case(case, ctx):
@@ -234,6 +294,10 @@ def check_case(case, ctx):
     classes = [case["backend"], "latlon" if case["latlon"] else "planar", "cycles:%d" % min(reopens, 3)]
     if stats["deferred"]:
         classes.append("deferred-ops")
+    if stats.get("linked"):
+        classes.append("sqlite-linked-parallel-roads")
+    if stats.get("other_process"):
+        classes.append("reopened-in-another-process")
     if case.get("crs_xy") or case.get("crs_lonlat"):
         classes.append("custom-crs")
     if case.get("linked"):
@@ -260,6 +324,24 @@ def _case(draw, tier):
             return [5e6 + 100 * p[0] + 0.3, 3e6 + 100 * p[1] + 0.7] if big else p
         qr = [50.0, 150.0, 1000.0] if big else [0.5, 1.5, 10.0]
     ops, have, have_edges, pending = [], [], [], list(labs)
+    if backend == "sqlite" and len(labs) >= 4 and draw(st.integers(0, 2)) == 0:
+        # two parallel roads (so that connect_parallelroads really links edges): nodes on two lines half a unit apart
+        half = len(labs) // 2
+        p0 = point()
+        step = (qr[0] * 1.0) if not latlon else 1e-3
+        gap = (qr[0] * 0.5) if not latlon else 2e-4
+        line1, line2 = labs[:half], labs[half:2 * half]
+        # (slightly slanted: connect_parallelroads pairs edges whose bounding boxes intersect, which never happens for two
+        # axis-parallel lines)
+        batch = [[l, [p0[0] + i * gap, p0[1] + i * step]] for i, l in enumerate(line1)] + \
+                [[l, [p0[0] + gap / 2 + i * gap, p0[1] + i * step]] for i, l in enumerate(line2)]
+        ops.append(["add_nodes", batch])
+        ebatch = [[a, b] for a, b in zip(line1, line1[1:])] + [[a, b] for a, b in zip(line2, line2[1:])]
+        ops.append(["add_edges", ebatch, False])
+        ops.append(["connect_parallelroads", qr[1]])
+        have = line1 + line2
+        have_edges = [list(e) for e in ebatch]
+        pending = labs[2 * half:]
     nops = draw(st.integers(2, 10 if tier == "quick" else 16))
     for _ in range(nops):
         choices = []
@@ -271,6 +353,8 @@ def _case(draw, tier):
             choices += ["reopen"]
         if backend == "sqlite":
             choices += ["reindex_nodes", "reindex_edges", "commit"]
+            if len(have_edges) >= 2:
+                choices += ["connect_parallelroads", "connect_parallelroads", "connect_parallelroads"]
         k = gen.pick(draw, choices)
         if k == "add_node":
             l = pending.pop(0)
@@ -298,6 +382,8 @@ def _case(draw, tier):
                 continue
             ops.append(["add_edges", batch, draw(st.booleans()) and backend == "sqlite"])
             have_edges += batch
+        elif k == "connect_parallelroads":
+            ops.append([k, gen.pick(draw, qr)])
         else:
             ops.append([k])
     ops.append(["reopen"])
@@ -305,6 +391,8 @@ def _case(draw, tier):
     for _ in range(3):
         queries.append([point(), gen.pick(draw, qr)])
     case = {"backend": backend, "latlon": latlon, "ops": ops, "queries": queries}
+    if backend == "sqlite" and draw(st.integers(0, 2)) == 0:
+        case["other_process"] = True  # every reopen is also done by a second interpreter with another hash seed
     if draw(st.integers(0, 3)) == 0:
         case["crs_xy"] = draw(st.sampled_from(["EPSG:31370", "EPSG:3857"]))
     if draw(st.integers(0, 5)) == 0:
